@@ -3264,6 +3264,9 @@ sexp sexp_list_to_uvector_op(sexp ctx, sexp self, sexp_sint_t n, sexp etype, sex
   sexp ls2, tmp;
   sexp_assert_type(ctx, sexp_fixnump, SEXP_FIXNUM, etype);
   sexp_gc_var1(res);
+  if (sexp_unbox_fixnum(etype) <= SEXP_NOT_A_UNIFORM_TYPE
+      || sexp_unbox_fixnum(etype) >= SEXP_END_OF_UNIFORM_TYPES)
+    return sexp_xtype_exception(ctx, self, "list->uvector: not a uniform vector type", etype);
   if (!sexp_listp(ctx, ls)) {
     res = sexp_exceptionp(ls) ? ls
       : sexp_xtype_exception(ctx, self, "list->uvector expected a list", ls);
